@@ -1,5 +1,6 @@
 """C19: LCU sampling tables and cost arithmetic are exact."""
 import itertools, math
+from dataclasses import replace as dataclasses_replace
 from fractions import Fraction
 import numpy as np
 from ..core import *
@@ -149,6 +150,64 @@ def run(ctx):
                 ctx.stat('cost_small_ratio', 'raised_%s' % type(e).__name__); continue
             add('cost_small_ratio', '(cost_ok %s %s %s %s)' % (cQ(Fraction(lam)), cQ(Fraction(dE)), cZ(r[0]), cZ(r[1])),
                 {'call': 'compute_cost' if name == 'thc' else 'cost_sparse', 'n': n, 'lam': lam, 'dE': dE, 'returned': list(r)}, key=(name, lam, dE, n))
+    # ---- surface-code physical costing: AlgorithmParameters.estimate_cost and the search in cost_estimator
+    import datetime
+    from openfermion.resource_estimates.surface_code_compilation import physical_costing as pc
+    facs = list(pc.iter_known_factories(physical_error_rate=1.0e-3)); facs4 = list(pc.iter_known_factories(physical_error_rate=1.0e-4))
+    def spec_fail(prm, rounds):
+        ls = math.ceil(prm.max_allocated_logical_qubits * (1 + prm.routing_overhead_proportion))
+        return min(1.0, prm.magic_state_factory.failure_rate * prm.toffoli_count
+                   + prm.proportion_of_bounding_box * 0.1 * (100 * prm.physical_error_rate) ** ((prm.logical_data_qubit_distance + 1) / 2) * ls * rounds)
+    for i in range(N(60, 600)):
+        per = rng.choice([1.0e-3, 1.0e-3, 1.0e-4]); fac = rng.choice(facs if per == 1.0e-3 else facs4)
+        toff = rng.choice([rng.randint(1, 50), rng.randint(1, 10 ** 6), rng.randint(10 ** 6, 10 ** 11)]); fc = rng.choice([1, 2, 3, 4, 4, 6, 7])
+        nlog = rng.randint(1, 5000); routing = rng.choice([0.0, 0.25, 0.5, 0.5, 0.75, 1.0]); dist = rng.choice(range(7, 35, 2)); cyc = rng.choice([1, 1, 2, 5])
+        prm = pc.AlgorithmParameters(physical_error_rate=per, surface_code_cycle_time=datetime.timedelta(microseconds=cyc), logical_data_qubit_distance=dist,
+                                     magic_state_factory=fac, toffoli_count=toff, max_allocated_logical_qubits=nlog, factory_count=fc,
+                                     routing_overhead_proportion=routing, proportion_of_bounding_box=rng.choice([1, 1.0, 0.5]))
+        rp = {'call': 'AlgorithmParameters.estimate_cost', 'factory': fac.details, 'factory_rounds': fac.rounds, 'footprint': fac.physical_qubit_footprint, 'toffoli_count': toff, 'factory_count': fc,
+              'logical_qubits': nlog, 'routing': routing, 'distance': dist, 'cycle_us': cyc, 'physical_error_rate': per}
+        try: ce = prm.estimate_cost()
+        except Exception as e:
+            ctx.count('physical_cost', 1); ctx.violation('C19 estimate_cost raised %s: %s' % (type(e).__name__, e), rp); continue
+        us = ce.duration // datetime.timedelta(microseconds=1)
+        rounds = us // cyc
+        rp['returned'] = [int(ce.physical_qubit_count), int(us), float(ce.algorithm_failure_probability)]
+        if ce.duration != rounds * datetime.timedelta(microseconds=cyc) or abs(ce.algorithm_failure_probability - spec_fail(prm, rounds)) > 1e-9 * max(1.0, spec_fail(prm, rounds)):
+            ctx.violation('C19 estimate_cost: duration is not a whole number of cycles, or the failure probability differs from factory + data failure of the reported rounds', rp)
+        add('physical_cost', '(phys_cost_ok %s %s %s %s %s %s %s %s %s)' % (cZ(toff), cZ(fc), cQ(Fraction(fac.rounds)), cZ(nlog), cQ(Fraction(routing)), cZ(dist), cZ(int(fac.physical_qubit_footprint)), cZ(int(rounds)), cZ(int(ce.physical_qubit_count))),
+            rp, key=(toff, fc, fac.details, nlog, routing, dist))
+    # cost_estimator: the returned estimate is that of the returned parameters, is admissible (failure <= 0.1) and minimises qubits x duration over all known factories and distances 7, 9, .., 33
+    for i in range(N(6, 40)):
+        nlog = rng.randint(50, 4000); toff = rng.choice([rng.randint(10 ** 4, 10 ** 7), rng.randint(10 ** 7, 10 ** 11)]); pbb = rng.choice([1.0, 0.5])
+        rp = {'call': 'cost_estimator', 'num_logical_qubits': nlog, 'num_toffoli': toff, 'portion_of_bounding_box': pbb}
+        ctx.count('cost_estimator', 1, nontrivial_key=(nlog, toff, pbb))
+        try: best, prm = pc.cost_estimator(nlog, toff, physical_error_rate=1.0e-3, portion_of_bounding_box=pbb)
+        except Exception as e:
+            ctx.violation('C19 cost_estimator raised %s: %s' % (type(e).__name__, e), rp); continue
+        cands = []
+        for fac in facs:
+            for dist in range(7, 35, 2):
+                rounds_x = Fraction(toff) * Fraction(fac.rounds) / 4
+                rnd = int(rounds_x)
+                ls = math.ceil(nlog * 1.5); q = ls * 2 * (dist + 1) ** 2 + 4 * fac.physical_qubit_footprint
+                fail = min(1.0, fac.failure_rate * toff + pbb * 0.1 * (100 * 1.0e-3) ** ((dist + 1) / 2) * ls * rnd)
+                cands.append((q * rnd, fail, fac.details, dist))
+        feas = [c for c in cands if c[1] <= 0.1 * (1 - 1e-9)]
+        if best is None:
+            if feas: ctx.violation('C19 cost_estimator returned no estimate although admissible layouts exist', dict(rp, example=repr(min(feas))))
+            continue
+        again = prm.estimate_cost()
+        vol = best.physical_qubit_count * (best.duration // datetime.timedelta(microseconds=1))
+        okk = (again == best and best.algorithm_failure_probability <= 0.1 and prm.toffoli_count == toff and prm.max_allocated_logical_qubits == nlog
+               and all(vol <= c[0] * (1 + 1e-9) + c[0] / max(1, toff) for c in feas))
+        if not okk:
+            ctx.violation('C19 cost_estimator: the returned layout is not the admissible minimiser of qubits x duration (returned volume %r, best admissible %r)' % (vol, min(feas)[:1] if feas else None), dict(rp, returned=repr(best)))
+        # doubling the Toffoli count doubles the duration of the same layout (up to one round)
+        prm2 = dataclasses_replace(prm, toffoli_count=2 * toff); c2 = prm2.estimate_cost()
+        d1 = best.duration // datetime.timedelta(microseconds=1); d2 = c2.duration // datetime.timedelta(microseconds=1)
+        if abs(d2 - 2 * d1) > 2 or c2.physical_qubit_count != best.physical_qubit_count:
+            ctx.violation('C19 estimate_cost: duration is not proportional to the Toffoli count (%r -> %r)' % (d1, d2), rp)
     res = coq_eval_bools(ctx, 'c19', IMPORTS, items, chunk=40, timeout=1500)
     judge(ctx, res, meta, 'C19')
 
